@@ -1,6 +1,8 @@
 import CedarVerif.Lemmas.ManifestCheck
 import CedarVerif.Lemmas.ManifestEnd
 import CedarVerif.Lemmas.ManifestValid
+import CedarVerif.Lemmas.ManifestLitValid
+import CedarVerif.Lemmas.ManifestSorted
 import CedarVerif.Lemmas.TypecheckPolicy
 import CedarVerif.Thm.C01
 import CedarVerif.Thm.C11
@@ -71,9 +73,20 @@ What is PROVED here:
   * `manifest_sound_valid_accepted`  the same from acceptance of the policies by `checkPolicy .strict` in ALL environments
                                  (C03's policy-level premise): the request's environment is one of them.
 
-What REMAINS: enlarging the fragment (record / set literals, `==` / `contains` on records; extension calls are covered by
-`manifest_sound_valid` / `eval_sim` but not by the older `InFrag`-based theorems); the "keeps
-more entities" half of `slice_monotone`; `typedAst` is a specification-level definition (Lemmas/ManifestValid.lean, written
+  * `manifest_sound_valid_lit`   RECORD AND SET LITERALS, `NoRecOps` REMOVED: the same for `FragL` = `FragE` + set literals + record
+                                 literals with distinct keys (dereferenced `{x: principal.a}.x.b`, as operands
+                                 `[principal.a, resource.b].contains(…)`, `x in [A::"a", r.owner]`, nested), with `==` /
+                                 `contains*` on records allowed.  `VRel` (Lemmas/ManifestFull.lean) extends `PCover` to
+                                 `WrappedAccessPaths::RecordLiteral / SetLiteral`, `SimL` / `eval_simL` (Lemmas/ManifestLit.lean)
+                                 extend `Sim` / `eval_sim`; `full_eq`: where the analysis requests the full type
+                                 (`full_type_required`) a covering sub-store holds THE WHOLE VALUE; `sim_typedL`
+                                 (Lemmas/ManifestLitValid.lean): C03 type soundness + `typeOf_cn` give the premises.
+                                 Hypotheses replacing `NoRecOps` and `CtxWF`: `SortedReq req`, `SortedStore es` (records are
+                                 key-sorted: Rust `BTreeMap`s; `Value.beq` on records is positional in the model);
+                                 `sortedStore_slice`: the slice is key-sorted (proved, Lemmas/ManifestSorted.lean);
+  * `ctxWF_not_from_conformance` `CtxWF` is NOT derivable from `ConformsRequest` (a context list binding a key twice conforms).
+
+What REMAINS: the "keeps more entities" half of `slice_monotone`; `typedAst` is a specification-level definition (Lemmas/ManifestValid.lean, written
 from typecheck.rs; the differential run takes the typed ASTs from Rust and does not diff `typedAst` against them).
 `FullStatement` (whose hypothesis `p.condition = te.erase` restricts it to typed ASTs without short-circuit transformation)
 is FALSE for the analysed code outside the stated exclusions' complement in two ways found by this check (see
@@ -694,6 +707,148 @@ example : isAuthorized Ex.req ExV.sliced ExV.policies = isAuthorized Ex.req ExV.
     · exact ⟨rfl, by simp [ExV.cond5, FragE, FragEList, FragOp],
         noRecOpsB_sound _ (by decide +kernel), .bool, by decide +kernel, by decide, by decide⟩
   · decide +kernel
+
+/-! ## record and set literals, whole-value operands: `NoRecOps` removed -/
+
+/-- C17 FOR VALID POLICIES AND CONFORMANT DATA, FRAGMENT WITH RECORD AND SET LITERALS, NO SIDE CONDITION ON RECORD OPERANDS.
+As `manifest_sound_valid`, with
+  * `FragL` instead of `FragE`: record literals (distinct keys — the parser and `Expr::record` reject duplicates) and set
+    literals anywhere, in particular dereferenced (`{x: principal.a}.x.b`), as operands (`[principal.a, resource.b]
+    .contains(…)`, `principal in [A::"x", resource.owner]`) and nested;
+  * NO `NoRecOps`: `==` may compare records and `contains` / `containsAll` / `containsAny` may look for records — the
+    analysis requests the operands' full types (`full_type_required`) and the slice holds them whole (`full_eq`);
+  * instead of `CtxWF`: `SortedReq req` and `SortedStore es` — the context and the attribute records of the store are
+    key-sorted, recursively through records (Rust `Value` records are `BTreeMap`s; the model's `evaluate` builds records
+    with `insertKV`).  `CtxWF` follows (`ctxWF_of_sorted`); it does NOT follow from `ConformsRequest` alone (see
+    `ctxWF_not_from_conformance`).  That the SLICE is key-sorted is proved (`sortedStore_slice`), not assumed.
+Whole-value equality is where the sortedness is needed: two association lists holding the same fields in different orders
+are different `Value`s of the model and `Value.beq` on records is positional. -/
+theorem manifest_sound_valid_lit (s : Schema) (hWF : SchemaClosed s) (env : RequestEnv) (req : Request) (es es' : Entities)
+    (ps : List Policy) (t : RootAccessTrie)
+    (henv : EnvMatches s env req) (hslots : env.principalSlot = none ∧ env.resourceSlot = none)
+    (hreq : ConformsRequest s req) (hst : StoreConforms s es) (hact : Cedar.C03.ActionsPresent s es)
+    (hsreq : SortedReq req) (hsst : SortedStore es)
+    (hps : ∀ p, p ∈ ps → p.env = [] ∧ FragL p.condition ∧
+      ∃ v, checkEnv .strict s env p.condition = some v ∧ v ≠ .fail ∧ v ≠ .ff)
+    (hm : manifestOfEnvs s ⟨env.principal, env.action, env.resource⟩ (ps.map (fun p => typedAst s env p.condition [])) = .ok t)
+    (hs : sliceStore (some t) req es = .ok es') :
+    isAuthorized req es' ps = isAuthorized req es ps := by
+  obtain ⟨h1, h2, h3, _⟩ := henv
+  have henv : EnvMatches s env req := ⟨h1, h2, h3, ‹_›⟩
+  have hctx : CtxWF req := ctxWF_of_sorted hsreq
+  have hconf : ∀ t0, manifestOfEnvs.go [] (ps.map (fun p => typedAst s env p.condition [])) = .ok t0 →
+      ConfRoots s ⟨env.principal, env.action, env.resource⟩ es req t0 :=
+    fun t0 _ => confRoots_all hWF hst hreq h1.symm h2.symm h3.symm t0
+  have huk : ∀ e, e ∈ ps.map (fun p => typedAst s env p.condition []) → TypesUK e := by
+    intro e he
+    simp only [List.mem_map] at he
+    obtain ⟨p, hp, e1⟩ := he
+    subst e1
+    exact typesUK_typedL hWF.toSchemaWF3 henv p.condition (hps p hp).2.1 []
+  obtain ⟨hsub, hcov⟩ := slice_of_manifest s _ req es es' _ t hctx huk hm hconf hs
+  have hsst' : SortedStore es' := sortedStore_sliceStore hsst hs
+  have hsem : Cedar.C03.Sem s env ⟨req, es, []⟩ :=
+    ⟨hreq, hst, ⟨fun t ht => (by rw [hslots.1] at ht; cases ht), fun t ht => (by rw [hslots.2] at ht; cases ht)⟩, hact⟩
+  apply isAuthorized_congr
+  intro p hp
+  obtain ⟨hpe, hfrag, v, hv, hne, _⟩ := hps p hp
+  obtain ⟨r, hr, hc⟩ := hcov (typedAst s env p.condition []) (List.mem_map.2 ⟨p, hp, rfl⟩)
+  have hty : ∃ τ c', typeOf .strict s env p.condition [] = .ok (τ, c') := by
+    unfold checkEnv at hv
+    cases hE : expectOneOf (typeOf .strict s env p.condition []) [boolT] with
+    | error err =>
+      rw [hE] at hv
+      cases err <;> simp at hv
+      exact (hne hv.symm).elim
+    | ok q =>
+      obtain ⟨τ, c'⟩ := q
+      exact ⟨τ, c', (expectOneOf_ok hE).1⟩
+  obtain ⟨τ, c', hty⟩ := hty
+  have hsim := sim_typedL hWF.toSchemaWF3 henv hsem p.condition hfrag [] τ c' hty (capsHold_nil _)
+  have h := eval_simL hsub hsst hsst' hsreq hsim r hr hc
+  rw [outcome_eq_outcomeOf, outcome_eq_outcomeOf, hpe]
+  exact outcome_of_relL h
+
+/-- `manifest_sound_valid_lit` + C01 -/
+theorem decision_sliced_valid_lit (s : Schema) (hWF : SchemaClosed s) (env : RequestEnv) (req : Request) (es es' : Entities)
+    (ps : List Policy) (t : RootAccessTrie)
+    (henv : EnvMatches s env req) (hslots : env.principalSlot = none ∧ env.resourceSlot = none)
+    (hreq : ConformsRequest s req) (hst : StoreConforms s es) (hact : Cedar.C03.ActionsPresent s es)
+    (hsreq : SortedReq req) (hsst : SortedStore es)
+    (hps : ∀ p, p ∈ ps → p.env = [] ∧ FragL p.condition ∧
+      ∃ v, checkEnv .strict s env p.condition = some v ∧ v ≠ .fail ∧ v ≠ .ff)
+    (hm : manifestOfEnvs s ⟨env.principal, env.action, env.resource⟩ (ps.map (fun p => typedAst s env p.condition [])) = .ok t)
+    (hs : sliceStore (some t) req es = .ok es') :
+    (isAuthorized req es' ps).decision = .allow ↔
+      (∃ p, p ∈ ps ∧ p.effect = .permit ∧ Sat req es p) ∧ ¬ (∃ p, p ∈ ps ∧ p.effect = .forbid ∧ Sat req es p) := by
+  rw [manifest_sound_valid_lit s hWF env req es es' ps t henv hslots hreq hst hact hsreq hsst hps hm hs]
+  exact Cedar.C01.allow_iff req es _
+
+/-- `CtxWF` IS NOT A CONSEQUENCE OF REQUEST CONFORMANCE: `ConformsRequest` (C11, stated by membership) accepts a context
+association list that binds `level` twice, with different longs; `CtxWF` (every binding is the one a lookup finds) fails
+for it.  Rust contexts are `BTreeMap`s, so the hypothesis that replaces `CtxWF` is key-sortedness (`SortedReq`). -/
+theorem ctxWF_not_from_conformance :
+    let req : Request := ⟨Ex.alice, ⟨"Action", "view"⟩, Ex.doc, [("level", .prim (.int 3)), ("level", .prim (.int 4))]⟩
+    ConformsRequest Ex.schema req ∧ ¬ CtxWF req := by
+  intro req
+  refine ⟨(Cedar.C11.checkRequest_iff _ _).mp ((ok_iff_isOkB _).mpr (by decide +kernel)), ?_⟩
+  intro h
+  simp only [CtxWF, Trim] at h
+  obtain ⟨kvs, e, h⟩ := h
+  cases e
+  simp only [req, TrimKVs, lookupKV, beq_self_eq_true, if_true, Trim] at h
+  obtain ⟨_, ⟨v, hv, hv'⟩, _⟩ := h
+  simp only [Option.some.injEq] at hv
+  subst hv
+  cases hv'
+
+/-! ### non-vacuity of `manifest_sound_valid_lit`: literals dereferenced, as operands, records compared -/
+
+namespace ExL
+/-- `{x: resource.owner}.x.name == "alice"` — an entity reached THROUGH a record literal is dereferenced -/
+def cond5 : Expr :=
+  .binaryApp .eq (.getAttr (.getAttr (.record [("x", .getAttr (.var .resource) "owner")]) "x") "name") (.lit (.string "alice"))
+/-- `[principal, resource.owner].contains(principal) && {a: principal.age, n: principal.name} == {a: 30, n: "alice"}` — a set
+literal as operand, `==` ON RECORDS (excluded by `NoRecOps` before) -/
+def cond6 : Expr :=
+  .and (.binaryApp .contains (.set [.var .principal, .getAttr (.var .resource) "owner"]) (.var .principal))
+       (.binaryApp .eq (.record [("a", .getAttr (.var .principal) "age"), ("n", .getAttr (.var .principal) "name")])
+                       (.record [("a", .lit (.int 30)), ("n", .lit (.string "alice"))]))
+/-- `resource.owner in [Group::"g"]` — a set literal on the right of `in` -/
+def cond7 : Expr :=
+  .binaryApp .mem (.getAttr (.var .resource) "owner") (.set [.lit (.entityUID Ex.grp)])
+def policies : List Policy :=
+  [Ex.pol.toPolicy, ⟨"p5", .permit, cond5, []⟩, ⟨"p6", .permit, cond6, []⟩, ⟨"p7", .permit, cond7, []⟩]
+def tasts : List TExpr := policies.map (fun p => typedAst Ex.schema ExV.env p.condition [])
+def manifest : RootAccessTrie :=
+  match manifestOfEnvs Ex.schema ⟨ExV.env.principal, ExV.env.action, ExV.env.resource⟩ tasts with | .ok t => t | .error _ => []
+def sliced : Entities := match sliceStore (some manifest) Ex.req ExV.store with | .ok es => es | .error _ => []
+end ExL
+
+example : isAuthorized Ex.req ExL.sliced ExL.policies = isAuthorized Ex.req ExV.store ExL.policies ∧
+    (isAuthorized Ex.req ExV.store ExL.policies).reasons = ["p0", "p5", "p6", "p7"] ∧
+    ExL.sliced.map (·.1) = [Ex.doc, Ex.alice] := by
+  refine ⟨?_, by decide +kernel, by decide +kernel⟩
+  have hm : manifestOfEnvs Ex.schema ⟨ExV.env.principal, ExV.env.action, ExV.env.resource⟩
+      (ExL.policies.map (fun p => typedAst Ex.schema ExV.env p.condition [])) = .ok ExL.manifest := by
+    obtain ⟨t, ht⟩ := ok_of_check (r := manifestOfEnvs Ex.schema ⟨ExV.env.principal, ExV.env.action, ExV.env.resource⟩ ExL.tasts)
+      (by decide +kernel)
+    have : ExL.manifest = t := by simp only [ExL.manifest, ht]
+    rw [this]; exact ht
+  have hs : sliceStore (some ExL.manifest) Ex.req ExV.store = .ok ExL.sliced := by
+    obtain ⟨x, hx⟩ := ok_of_check (r := sliceStore (some ExL.manifest) Ex.req ExV.store) (by decide +kernel)
+    have : ExL.sliced = x := by simp only [ExL.sliced, hx]
+    rw [this]; exact hx
+  refine manifest_sound_valid_lit Ex.schema exV_schemaClosed ExV.env Ex.req ExV.store ExL.sliced ExL.policies ExL.manifest
+    ⟨rfl, rfl, rfl, Ex.viewAct, rfl, rfl⟩ ⟨rfl, rfl⟩ exV_request_conforms exV_store_conforms exV_actions_present
+    (sortedReqB_sound _ (by decide +kernel)) (sortedStoreB_sound _ (by decide +kernel)) ?_ hm hs
+  intro p hp
+  simp only [ExL.policies, List.mem_cons, List.not_mem_nil, or_false] at hp
+  rcases hp with e | e | e | e <;> subst e
+  · exact ⟨rfl, by simp [TPolicy.toPolicy, Ex.pol, Ex.cond, TExpr.erase, FragL, FragOp], .bool, by decide +kernel, by decide, by decide⟩
+  · exact ⟨rfl, by simp [ExL.cond5, FragL, FragLKVs, FragOp], .bool, by decide +kernel, by decide, by decide⟩
+  · exact ⟨rfl, by simp [ExL.cond6, FragL, FragLList, FragLKVs, FragOp], .bool, by decide +kernel, by decide, by decide⟩
+  · exact ⟨rfl, by simp [ExL.cond7, FragL, FragLList, FragOp], .bool, by decide +kernel, by decide, by decide⟩
 
 /-! ## the full statement -/
 
